@@ -550,7 +550,10 @@ def run_make(ctx, K):
                     rec.const(f"{pname}.entry_point_is_the_registered_one[{j}]", len(which) == 1)
                     if which:
                         rec.ob(f"{pname}.the_entry_used_is_the_one_registered_under_the_id[{j}]", pcs + [z3.Not(sid.t == keys[which[0]])])
-                    rec.const(f"{pname}.registered_kwargs_and_registry_unchanged[{j}]", [dict(s.kwargs) for s in specs_] == snapshot and not reg.writes)
+                    now = [dict(s.kwargs) for s in specs_]
+                    rec.const(f"{pname}.registered_kwargs_and_registry_unchanged[{j}]", now == snapshot and not reg.writes,
+                              witness=None if (now == snapshot and not reg.writes) else {"registered_kwargs_before": repr(snapshot), "after_make": repr(now),
+                                                                                          "caller_kwargs": repr(callkw), "registry_writes": len(reg.writes)})
                     rec.ob(f"{pname}.built_only_for_registered_ids[{j}]", pcs + [z3.Not(indom)])
                 else:
                     rec.const(f"{pname}.refusal_is_a_ValueError[{j}]", isinstance(out[1], ValueError), detail={"exception": type(out[1]).__name__})
